@@ -122,7 +122,10 @@ type Run struct {
 	Ctx      string   `json:"ctx"` // "", background, cancel-after, value
 	PatErr   bool     `json:"pat_err"`
 	Specials []string `json:"specials,omitempty"` // extra Vars (FS, OFS ...)
+	EnvNil   bool     `json:"env_nil,omitempty"`  // Config.Environ left nil: ENVIRON comes from the process environment (E=from-os, set by this package)
 }
+
+func init() { os.Setenv("E", "from-os") }
 
 type Case struct {
 	History   []Run `json:"history"`
@@ -163,6 +166,7 @@ func genRun(t *rapid.T, probe bool) Run {
 		r.Endm = rapid.SampledFrom([]string{"", "", "exit-in-rule", "exit-in-end"}).Draw(t, "pendm")
 		r.PatErr = false
 	}
+	r.EnvNil = rapid.IntRange(0, 3).Draw(t, "envnil") == 0
 	if rapid.IntRange(0, 2).Draw(t, "specials") == 0 {
 		r.Specials = []string{rapid.SampledFrom([]string{"FS", "OFS", "CONVFMT", "SUBSEP"}).Draw(t, "sp"), rapid.SampledFrom([]string{",", ":", "%.3g", "-"}).Draw(t, "spv")}
 		if r.Specials[0] == "CONVFMT" {
@@ -232,6 +236,9 @@ func config(r Run, dir string, full bool, explicitSpecials bool, out *bytes.Buff
 		OpenFile: func(name string, flag int, perm os.FileMode) (*os.File, error) {
 			return os.OpenFile(filepath.Join(dir, filepath.Base(name)), flag, perm)
 		}}
+	if r.EnvNil {
+		cfg.Environ = nil
+	}
 	switch r.InMode {
 	case "csv":
 		cfg.InputMode = interp.CSVMode
